@@ -86,7 +86,11 @@ fn main() {
         "C02" => genpipe::run_gent_check(&ctx, "C02"),
         "C08" => genpipe::run_gent_check(&ctx, "C08"),
         "C13" => genpipe::run_gent_check(&ctx, "C13"),
-        "C19" => genpipe::run_gent_check(&ctx, "C19"),
+        "C05" => genpipe::run_multi(&ctx, "C05", &["gentp", "gentpd"]),
+        "C06" => genpipe::run_multi(&ctx, "C06", &["gentp"]),
+        "C10" => genpipe::run_multi(&ctx, "C10", &["gentp"]),
+        "C18" => genpipe::run_multi(&ctx, "C18", &["gentp"]),
+        "C19" => genpipe::run_multi(&ctx, "C19", &["gent", "gentp"]),
         "C20" => genpipe::run_gent_check(&ctx, "C20"),
         "C03" => c03::run(&ctx),
         "C04" => c04::run(&ctx),
